@@ -517,16 +517,15 @@ class Repetition(Sub):
             'single characters, N in the bound: besides the step budget, each parse runs under a wall-clock alarm of 10 s '
             '(confirmed once at 40 s) - 4-5 orders of magnitude above the normal 0.1-1 ms - because a C-level stall such '
             'as catastrophic regex backtracking executes no Python lines; non-trivial = all')
-    min_cases = 50
+    min_cases = 10
     min_nontrivial = 1000
+    stride = False
     ALARM = 10
 
     def cases(self, tier, unit):
         ns = (30,) if tier == 'quick' else (12, 30, 60)
         for pi in range(len(REP_PREFIX)):
-            yield ['units', pi, list(ns)]
-            for a in range(len(REP_SMALL)):
-                yield ['pairs', pi, a, list(ns)]
+            yield ['prefix', pi, list(ns)]
 
     def timed(self, env, p, text, seconds):
         import signal
@@ -562,20 +561,16 @@ class Repetition(Sub):
         if case[0] == 'one':
             return self.one(env, case[1])
         out = []
-        if case[0] == 'units':
-            _, pi, ns = case
-            units = REP_UNITS
-        else:
-            _, pi, a, ns = case
-            units = [REP_SMALL[a] + b for b in REP_SMALL]
+        _, pi, ns = case
+        units = REP_UNITS + [a + b for a in REP_SMALL for b in REP_SMALL]
         for u in units:
             for n in ns:
                 f = self.one(env, REP_PREFIX[pi] + u * n)
                 if f:
                     out.append(f)
                     break
-            if len(out) >= 2:
-                break
+            if out:
+                break       # a stall costs up to 50 s of wall-clock: one witness per prefix is enough
         return out
 
 
